@@ -140,16 +140,24 @@ theorem dropStreamRef_woken {s : Streams} {k : Nat} (h1 : (s.stream k).refCount 
   have hstep1 : Step none s s1 := by
     rw [← hs1]
     exact modStream_acc k _ (sstep_of_inert _ (by rw [hst0]; inert)) (setRefs_acc _ (Step.refl _ _))
-  have hcond : ((s1.stream k).refCount == 0 && (s1.stream k).isClosed) = false := by
-    rw [hst1]; simp [Stream.isClosed, hc]
-  rw [hcond]
-  simp only [Bool.false_eq_true, if_false]
+  -- the (possible) wake of F35 in between does not touch the store
+  generalize hs2 : (if ((s1.stream k).refCount == 0 && (s1.stream k).isClosed || s1.refs == 1) = true then s1.notifyTask else s1) = s2
+  have hstore2 : s2.store = s1.store := by
+    subst hs2; split
+    · unfold Streams.notifyTask; split <;> rfl
+    · rfl
+  have hst2 : s2.stream k = { a with refCount := a.refCount - 1 } := by
+    unfold Streams.stream; rw [hstore2]; exact hst1
+  have hstep2 : Step none s s2 := by
+    subst hs2; split
+    · exact notifyTask_acc hstep1
+    · exact hstep1
   -- inside `transition`: `maybe_cancel` wakes, the rest are steps
-  have hw : TaskWoken s1 (s1.maybeCancel k) :=
-    maybeCancel_woken (by rw [hst1]; simp [h1]) (by rw [hst1]; exact hc) (by rw [hst1]; exact hr)
-  have hsm : Step none s1 (s1.maybeCancel k) := maybeCancel_acc k (Step.refl _ _)
-  have hw2 : TaskWoken s (s1.maybeCancel k) := TaskWoken.after hstep1 hw hsm.wakes
-  have hwk : s.wakes <+: (s1.maybeCancel k).wakes := hstep1.wakes.trans hsm.wakes
+  have hw : TaskWoken s2 (s2.maybeCancel k) :=
+    maybeCancel_woken (by rw [hst2]; simp [h1]) (by rw [hst2]; exact hc) (by rw [hst2]; exact hr)
+  have hsm : Step none s2 (s2.maybeCancel k) := maybeCancel_acc k (Step.refl _ _)
+  have hw2 : TaskWoken s (s2.maybeCancel k) := TaskWoken.after hstep2 hw hsm.wakes
+  have hwk : s.wakes <+: (s2.maybeCancel k).wakes := hstep2.wakes.trans hsm.wakes
   unfold Streams.transition
   simp only
   split
@@ -158,6 +166,48 @@ theorem dropStreamRef_woken {s : Streams} {k : Nat} (h1 : (s.stream k).refCount 
     refine cancelPromises_acc _ ?_
     step_grind
   · exact hw2.before hwk (transitionAfter_acc _ _ (Step.refl _ _))
+
+theorem panic_refs (s : Streams) (m : String) : (s.panic m).refs = s.refs := by
+  unfold Streams.panic; split <;> rfl
+theorem modStream_refs (s : Streams) (k : Nat) (f : Stream → Stream) : (s.modStream k f).refs = s.refs := by
+  unfold Streams.modStream; split
+  · rfl
+  · exact panic_refs _ _
+
+/-- **`drop_stream_ref` of the last reference besides the connection's own** (repair F35: a `SendRequest` drops its
+    `Streams` handle before its `pending` stream reference, so a stream reference can be the last one): the
+    connection task is woken — an idle client can notice that nobody is left and close itself -/
+theorem dropStreamRef_last_ref_woken {s : Streams} {k : Nat} (hrefs : s.refs = 2) : TaskWoken s (s.dropStreamRef k) := by
+  unfold Streams.dropStreamRef
+  simp only
+  generalize hs1 : ((if (({ s with refs := s.refs - 1 } : Streams).stream k).refCount > 0 then ({ s with refs := s.refs - 1 } : Streams)
+      else ({ s with refs := s.refs - 1 } : Streams).panic "assertion failed: self.ref_count > 0").modStream k
+        fun st => { st with refCount := st.refCount - 1 }) = s1
+  have hstep1 : Step none s s1 := by subst hs1; step_grind
+  have hr1 : s1.refs = 1 := by
+    subst hs1; rw [modStream_refs]; split
+    · simp [hrefs]
+    · rw [panic_refs]; simp [hrefs]
+  have hcond : ((s1.stream k).refCount == 0 && (s1.stream k).isClosed || s1.refs == 1) = true := by simp [hr1]
+  rw [hcond]
+  simp only [if_true]
+  refine TaskWoken.step_notify_step hstep1 ?_
+  have hc := @cancelPromises_acc none s1.notifyTask
+  have h0 : Step none s1.notifyTask s1.notifyTask := Step.refl _ _
+  generalize s1.notifyTask = s2 at *
+  clear hcond hr1 hstep1 hs1
+  step_grind
+
+namespace F35
+/-- client: one request whose only stream reference is the `SendRequest`'s `pending` one; the `SendRequest` drops its
+    `Streams` handle first (no wake: two references left), the connection task parks … -/
+def f1 : Streams := ((Conn.init {}).streams.sendRequest false [] true none).1.dropHandle
+def f2 : Streams := { f1 with actions := { f1.actions with task := some "c" }, wakes := [] }
+/-- … then the `pending` reference goes: it was the last one besides the connection's own -/
+def f3 : Streams := f2.dropStreamRef 0
+theorem last_stream_ref_wakes_connection_example :
+    f2.refs = 2 ∧ f2.actions.task = some "c" ∧ f3.refs = 1 ∧ "c" ∈ f3.wakes ∧ f3.actions.task = none := by decide
+end F35
 
 /-- the stream has buffered DATA but not one octet of send capacity: nothing of it can be written -/
 def NoCapacity (s : Streams) (k : Nat) : Prop :=
